@@ -3,16 +3,71 @@
 //!   form f: 0 integer literal in the expression text, 1 i64 value, 2 u64 value, 3 i128 value,
 //!           4 u128 value, 5 f64 value given by its bit pattern, 6 float literal in the text
 //!           (bit pattern; finite only)
+//!           100*route + type: the integer supplied by another route, at every Rust width.
+//!             type  0 i8 1 i16 2 i32 3 i64 4 i128 5 isize 6 u8 7 u16 8 u32 9 u64 10 u128 11 usize
+//!             route 1 Value::from(x)            2 Value::from(Serde(x)) (the serde serializer)
+//!                   3 field of a serialized struct (`a.v`)   4 element of a serialized Vec (`a[0]`)
+//!                   5 value of a serialized map (`a.k`)      6 round trip Value::from(x) -> T::deserialize -> Serde(t)
+//!                   7 Serde(Some(x))
 //! Output: `0 z` integer result, `4 bits` float result (NaN canonicalised), `1 code` error,
 //!         `2` panic, `5 lt eq gt` comparison, `9` case not expressible / unexpected result kind.
-use minijinja::value::{Value, ValueKind};
+use minijinja::value::{Serde, Value, ValueKind};
+use std::collections::BTreeMap;
 use minijinja::{context, Environment};
 use mjverif::*;
 
 const CANON_NAN: u64 = 0x7ff8_0000_0000_0000;
 
+#[derive(serde::Serialize)]
+struct Holder<T> {
+    pad: &'static str,
+    v: T,
+}
+
+/// the integer `s` of Rust type `$t` delivered through `route`
+macro_rules! by_route {
+    ($t:ty, $route:expr, $s:expr, $name:expr) => {{
+        let x: $t = $s.parse().ok()?;
+        match $route {
+            1 => ($name.to_string(), Value::from(x)),
+            2 => ($name.to_string(), Value::from(Serde(x))),
+            3 => (format!("{}.v", $name), Value::from(Serde(Holder { pad: "p", v: x }))),
+            4 => (format!("{}[0]", $name), Value::from(Serde(vec![x]))),
+            5 => (format!("{}.k", $name), Value::from(Serde(BTreeMap::from([("k", x)])))),
+            6 => {
+                let t: $t = <$t as serde::Deserialize>::deserialize(Value::from(x)).ok()?;
+                ($name.to_string(), Value::from(Serde(t)))
+            }
+            7 => ($name.to_string(), Value::from(Serde(Some(x)))),
+            _ => return None,
+        }
+    }};
+}
+
+fn routed(form: i64, s: &str, name: &str) -> Option<(String, Value)> {
+    let route = form / 100;
+    Some(match form % 100 {
+        0 => by_route!(i8, route, s, name),
+        1 => by_route!(i16, route, s, name),
+        2 => by_route!(i32, route, s, name),
+        3 => by_route!(i64, route, s, name),
+        4 => by_route!(i128, route, s, name),
+        5 => by_route!(isize, route, s, name),
+        6 => by_route!(u8, route, s, name),
+        7 => by_route!(u16, route, s, name),
+        8 => by_route!(u32, route, s, name),
+        9 => by_route!(u64, route, s, name),
+        10 => by_route!(u128, route, s, name),
+        11 => by_route!(usize, route, s, name),
+        _ => return None,
+    })
+}
+
 /// operand as (text in the expression, value bound to the variable)
 fn operand(form: i64, s: &str, name: &str) -> Option<(String, Value)> {
+    if form >= 100 {
+        return routed(form, s, name);
+    }
     let none = Value::from(());
     Some(match form {
         0 => {
@@ -100,7 +155,8 @@ fn main() {
             3 => format!("{} // {}", ta, tb),
             4 => format!("{} % {}", ta, tb),
             5 => format!("{} ** {}", ta, tb),
-            6 => format!("-{}", if ta.starts_with('-') { format!("({})", ta) } else { ta }),
+            // unary minus binds tighter than `.v` / `[0]`
+            6 => format!("-{}", if ta.starts_with('-') || ta.contains('.') || ta.contains('[') { format!("({})", ta) } else { ta }),
             _ => return vec!["9".into()],
         };
         match eval(&src) {
